@@ -157,6 +157,24 @@ Proof.
 Qed.
 Print Assumptions C17_chunked_overrides_length.
 
+(* The coding name.  Whether a message is chunked depends only on the header
+   name up to case and on the value up to case and surrounding blanks:
+   "Transfer-Encoding: chunked", "TRANSFER-ENCODING:  Chunked ", ... all select
+   the chunk decoder (with C17_chunked_overrides_length). *)
+Theorem C17_coding_name_folded : forall h name value,
+  lowerk name = s_te -> value <> [] ->
+  te_chunked (hset h name value) = bytes_eqb (lowerk (strip ws_l1 value)) s_chunked.
+Proof. exact chunked_name_value_folded. Qed.
+Print Assumptions C17_coding_name_folded.
+
+Example C17_coding_name_examples :
+  map (fun nv => te_chunked (hset [] (of_bytes (fst nv)) (of_bytes (snd nv))))
+    [ ([x54;x72;x61;x6e;x73;x66;x65;x72;x2d;x45;x6e;x63;x6f;x64;x69;x6e;x67], [x43;x68;x75;x6e;x6b;x65;x64]);
+      ([x54;x52;x41;x4e;x53;x46;x45;x52;x2d;x45;x4e;x43;x4f;x44;x49;x4e;x47], [x20;x43;x48;x55;x4e;x4b;x45;x44;x09]);
+      ([x74;x72;x61;x6e;x73;x66;x65;x72;x2d;x65;x6e;x63;x6f;x64;x69;x6e;x67], [x67;x7a;x69;x70]) ]
+  = [true; true; false].
+Proof. vm_compute. reflexivity. Qed.
+
 (* Non-vacuity: a response whose head and first bytes were parsed, then the
    rest (two chunks, last-chunk, trailer) arrives together with the closure. *)
 Example C17_closed_example :
